@@ -84,6 +84,18 @@ CHECKS["C01"] = dict(
          "the same outcome is produced by the consumer loop MoveNext/Current written with the generator object of the MACHINE model of seq.go (SeqMachine.v: co cells, continuations, For trampoline), for all large enough fuels. "
          "The side conditions of both theorems are evaluated on every generated program (evidence: theorem_side_conditions). Outside the fragment (yielding init/post, break out of a yielding case = finding F2, range, YieldFrom) the check is differential. Known findings F1/F2 are reported as such.",
     note=C_NOTE, design="§6 C01, §11")
+CHECKS["C03"] = dict(
+    category="proof",
+    technique="Coq proof (partial): static scoping is preserved by the rewriter model — for every body satisfying the syntactic side condition soks, every atom, condition, switch tag and "
+              "yielded expression of rewrite's output (pass0, pass2 with its Bind / Combine / For re-nesting, pass3) lies in the scope of exactly the declaring statements, in the same order, "
+              "as in the source (Scope.v: 5-way induction over the CPS rewriter with a specification of the continuation; ScopeP3.v: pass0 / pass3); the scope lists are evaluated inside Coq on the abstract tree "
+              "of the REAL compiler's output and on the source of every generated program, with the side condition and the same-block observation for partial redeclaration; "
+              "differential translation validation with locals, shadowing, closures and partial redeclaration observed through logged values; optimiser-sensitive corpus",
+    text="C03_static_scoping_partial, C03_pass2_scoping_partial, C03_pass3_keeps_scoping (Props_C03.v), with the witnesses C03_forpost_refuted (finding F3) and C03_redeclaration_refuted (finding F24: 'x, n := ...' after a yield "
+         "declares a new x inside the generated function literal; found while stating the theorem, reproduced on the real compiler). Not covered by a theorem: ':=' initialisers of rewritten for / switch statements "
+         "(hoisting into a fresh block is not in the model), yielding post statements, the range lowering, capture by reference itself (Go's closure semantics) and per-iteration loop variables of go >= 1.22 (F18): "
+         "decided by the differential check, where programs declare / shadow / update / capture / partially redeclare integer locals at random positions relative to yields and values are observed via events and yields.",
+    note=C_NOTE, design="§6 C03, §11")
 CHECKS["C04"] = dict(
     category="proof",
     technique="Coq proof (partial): the statement list the rewriter emits for a range statement (iterator init; for it.MoveNext() { bind; body }) equals, for ANY iterator state machine and any user body "
